@@ -209,7 +209,14 @@ func factsSender() {
 	natFact(g, "activeCloseSites", nActive, "closeStream call sites with a second argument other than the literal false")
 	natFact(g, "passiveCloseSites", nPassive, "closeStream(…, false) call sites")
 	callers := funcsCalling(mx, `\.obfuscateAndSend$`)
-	emit(g, "sendCallers", "List String", "["+strings.Join(quoteAll(callers), ", ")+"]", "functions of internal/multiplex that call obfuscateAndSend")
+	known := true
+	for _, c := range callers {
+		if c != "Session.closeStream" && c != "Stream.ReadFrom" && c != "Stream.Write" {
+			known = false
+		}
+	}
+	natFact(g, "sendCallerCount", len(callers), "functions of internal/multiplex that call obfuscateAndSend: "+strings.Join(callers, ", "))
+	boolFact(g, "sendCallersKnown", known, "they are among Stream.Write, Stream.ReadFrom, Session.closeStream (the three modelled call chains)")
 
 	// --- obfuscateAndSend: obfuscate(&writingFrame …); Seq++; if err != nil {return}; …send…
 	oe := events(oas)
@@ -341,10 +348,3 @@ func factsSender() {
 	constFact(g, "closingSession", mx, "closingSession")
 }
 
-func quoteAll(xs []string) []string {
-	out := make([]string, len(xs))
-	for i, x := range xs {
-		out[i] = leanStr(x)
-	}
-	return out
-}
